@@ -244,3 +244,28 @@ def related(rng, f, kind='tel'):
     if k < 0.8 or kind == 'del':
         return sibling(rng, f)
     return rng.choice([('initially', f), ('prev', None, f), ('since', None, f), ('seqprev', f, ('true',))])
+
+
+def late_future(rng, atoms, depth=1):
+    """a (counted) future formula that is FIRST reached when its target state already exists: n-fold next / until / release
+    below enough past operators (the first translation then takes the 'inside the horizon' branch)"""
+    n = rng.choice([1, 2, 2, 3])
+    inner = formula(rng, atoms, depth, kw=None, nfold=0.0)
+    k = rng.random()
+    if k < 0.6:
+        f = (rng.choice(['next', 'wnext']), rng.choice([n, n, '(%d+%d)' % (n - 1, 1)]) if n > 1 or rng.random() < 0.5 else None, inner)
+    elif k < 0.8:
+        f = (rng.choice(['until', 'release']), rng.choice([None, ('atom', rng.choice(atoms))]), inner)
+    else:
+        f = (rng.choice(['seqnext', 'seqwnext']), ('atom', rng.choice(atoms)), inner)
+    for _ in range(rng.randint(1, 2)):
+        w = rng.random()
+        if w < 0.4:
+            f = (rng.choice(['prev', 'wprev']), rng.choice([n, n + 1, 2, None]), f)
+        elif w < 0.6:
+            f = ('initially', f)
+        elif w < 0.8:
+            f = (rng.choice(['since', 'trigger']), None, f)
+        else:
+            f = (rng.choice(['seqprev', 'seqwprev']), f, ('atom', rng.choice(atoms)))
+    return f
